@@ -240,3 +240,5 @@ def _round7(ctx):
     with ctx.rule('R07.10', "the Close carrying the hard-error code is written before the loop ends, and a cancelled consumer's tag is unknown afterwards (shared with C08, C11)", floor=6) as r:
         A.include(ctx, r, 'c08', 'R08.5', pick=('done:',))
         A.include(ctx, r, 'c11', 'R11.2', pick=('basic::Cancel',))
+    with ctx.rule('R07.11', "a violation in the same read as OpenOk is a violation: errors of the frames replayed after the handshake propagate (shared with C16)", floor=1) as r:
+        A.include(ctx, r, 'c16', 'R16.8', pick=('errors-propagated',))
